@@ -189,7 +189,10 @@ def check_back(cfg, crate, rep):
     want = {"any": "Any", "server_auth": "ServerAuth", "client_auth": "ClientAuth", "code_signing": "CodeSigning", "email_protection": "EmailProtection", "time_stamping": "TimeStamping", "ocsp_signing": "OcspSigning"}
     rep.ob("C07.back", "%s|%s|eku-flags" % (cfg, fn), pairs == want, "each standard EKU flag maps to the like-named variant", expected=want, found=pairs)
     # SAN via try_from_general
-    rep.ob("C07.back", "%s|%s|san" % (cfg, fn), "SanType::try_from_general" in names, "SAN entries are converted by the shared GeneralName converter")
+    # (the call may sit in a helper introduced later: the interpreter's call log covers inlined helpers)
+    san_conv = [a_ for c_, a_, n_, cnd_, f_ in Ie.calls if c_.endswith("SanType::try_from_general")]
+    san_src = any(a_ and ".general_names" in core(a_[0]).r() for a_ in san_conv)
+    rep.ob("C07.back", "%s|%s|san" % (cfg, fn), "SanType::try_from_general" in names or (bool(san_conv) and san_src), "SAN entries are converted by the shared GeneralName converter", found=[core(a_[0]).r()[-80:] for a_ in san_conv if a_])
     san_back(cfg, crate, rep)
 
 
